@@ -19,6 +19,7 @@ import (
 	"strconv"
 	"strings"
 	"sync"
+	"syscall"
 	"time"
 )
 
@@ -230,6 +231,9 @@ func workerMain(a []string) {
 		distinct: map[uint64]struct{}{}, fpSeen: map[string]int{}, harnessName: c.name,
 		deadline: time.Now().Add(time.Duration(capS) * time.Second), sampleBudget: 3}
 	w.cur = openCur(os.Getenv("VERIF_CURFILE"))
+	// safety net: a runaway allocation ends this worker instead of the machine
+	lim := syscall.Rlimit{Cur: 20 << 30, Max: 20 << 30}
+	syscall.Setrlimit(syscall.RLIMIT_AS, &lim)
 	go watchdog(w.cur)
 	c.body(w)
 	w.finish()
